@@ -65,6 +65,10 @@ func (o *Out) Emit(v any) {
 	o.w.Write(b)
 	o.w.WriteByte('\n')
 	o.n++
+	if o.n%128 == 0 {
+		// the orchestrator watches the file grow to tell a working driver from a wedged one
+		o.w.Flush()
+	}
 	o.mu.Unlock()
 }
 
